@@ -535,12 +535,63 @@ def run_near_param(block, ctx):
     ctx.sample(block[0])
 
 
+# -- output-side seams: inputs whose IMAGE lies next to a quadrant boundary of the result -------------------------
+
+OUT_DELTAS = [0.0, 1e-8, -1e-8, 1e-7, -1e-7, 1e-6, -1e-6, 1e-5, -1e-5, 1e-4, -1e-3]
+OUT_LATS = [-70.0, -20.0, 0.0, 35.0, 80.0]
+
+
+def out_seam_cases():
+    """For each conversion f with inverse g: the input g_image(L, B) whose image has longitude L = q + d for
+    q in {0, 90, 180, 270} and |d| up to 1e-3 degree - where an arctangent of the result changes quadrant."""
+    cases = []
+    for pair, pars in (("ecliptical", [23.4392911, 10.0]), ("horizontal", [38.92, -66.5, 1e-7]), ("galactic", [0.0])):
+        kf, kb = PAIRS[pair][0], PAIRS[pair][1]
+        for par in pars:
+            for direction, k_fwd, k_inv in (("forward_first", kf, kb), ("backward_first", kb, kf)):
+                for q in (0.0, 90.0, 180.0, 270.0):
+                    for d in OUT_DELTAS:
+                        for B in OUT_LATS:
+                            lo, la = image(k_inv, q + d, B, par)
+                            cases.append({"pair": pair, "par": par, "direction": direction, "lon": lo % 360.0, "lat": la,
+                                          "target": [q + d, B]})
+    return cases
+
+
+def check_out_seam(case):
+    pair, par, direction, lon, lat = case["pair"], case["par"], case["direction"], case["lon"], case["lat"]
+    kf, kb, fwd, back, _, _ = PAIRS[pair]
+    f, k = (fwd, kf) if direction == "forward_first" else (back, kb)
+    try:
+        l1, b1 = f(Angle(lon), Angle(lat), par)
+    except Exception as ex:
+        return [("exception", "%s %s of (%r, %r; %r) raised %r" % (pair, direction, lon, lat, par, ex), None)]
+    il, ib = image(k, lon, lat, par)
+    d = S.sep_ll(il, ib, l1._deg, b1._deg)
+    if not d <= TOL:
+        return [("out_seam", "%s %s of (%r, %r; %r) = (%r, %r), rotation matrix gives (%r, %r) [target longitude %r]: %.3g "
+                 "deg" % (pair, direction, lon, lat, par, l1._deg, b1._deg, il % 360, ib, case["target"][0], d), d)]
+    return []
+
+
+def run_out_seams(block, ctx):
+    for case in block:
+        ctx.evals += 1
+        ctx.nt_count += 1
+        for site, msg, dev in check_out_seam(case):
+            ctx.viol(case, msg, dev=dev, site=site)
+        ctx.outcome((case["pair"], case["direction"], case["target"][0] // 90))
+    ctx.sample(block[0])
+
+
 def clauses(tier):
     return [
         Clause("directions", chunks(dir_cases(tier), 64), run_dirs,
                lambda c: [m for _, m, _ in check_dir(c)], floor=2000),
         Clause("shared_objects", [[{"pair": k} for k in PAIRS]], run_shared,
                lambda c: [m for _, m, _ in check_shared(c)], floor=3, shape="H"),
+        Clause("output_seams", chunks(out_seam_cases(), 16), run_out_seams, lambda c: [m for _, m, _ in check_out_seam(c)],
+               floor=1000),
         Clause("near_parameters", chunks(near_param_cases(), 8), run_near_param,
                lambda c: [m for _, m, _ in check_near_param(c)], floor=15, shape="H"),
         Clause("rigidity", chunks(pair_cases(), 18), run_pairs,
